@@ -1,6 +1,7 @@
 (* C28: the instance-management calls of the data writer honour their documented contract
    for every sequence of events, outside two recorded classes (which are witnessed). *)
-From DustDDS Require Import Base.Machine WriterHist.WriterModel WriterHist.WriterFacts WriterHist.WriterCorr.
+From DustDDS Require Import Base.Machine WriterHist.WriterModel WriterHist.WriterFacts WriterHist.WriterCorr
+  WriterHist.WriterLimits.
 Open Scope Z_scope.
 
 (* ------------------------------------------------------------ finite sets *)
@@ -17,7 +18,7 @@ Proof.
   - rewrite IH. apply Z.eqb_eq in Ey. subst y.
     destruct (h =? x) eqn:Eh; cbn [negb andb orb]; reflexivity.
   - cbn [existsb]. rewrite IH. destruct (h =? y) eqn:Ehy; cbn [orb].
-    + apply Z.eqb_eq in Ehy. subst y. rewrite Z.eqb_sym in Ey. now rewrite Ey.
+    + apply Z.eqb_eq in Ehy. subst y. now rewrite Ey.
     + reflexivity.
 Qed.
 
@@ -32,13 +33,13 @@ Record Inv (keyed : bool) (w : writer) (g : ghost) : Prop := mkInv {
 }.
 
 Lemma Inv_init keyed en q : Inv keyed (init keyed en q) (mkG en [] [] []).
-Proof. constructor; cbn; auto; try discriminate. intros p; discriminate. Qed.
+Proof. constructor; cbn; auto; try discriminate; intros p; discriminate. Qed.
 
 (* transformations that change neither the instance handles nor the flags *)
 Lemma Inv_silent keyed w w' g :
   same_frame w w' -> hsame w w' -> pend_ok w' -> Inv keyed w g -> Inv keyed w' g.
 Proof.
-  intros F S P [Ik Ie Ir Ic _]. destruct F as [Fe Fk _ _].
+  intros F S P [Ik Ie Ir Ic _]. destruct F as [Fe Fk _].
   constructor; try congruence.
   - intros h Hh. rewrite S. auto.
   - intros h Hh. rewrite S in Hh. auto.
@@ -68,7 +69,7 @@ Lemma Inv_registered keyed w w' g h :
   has_inst h (w_insts w') = true -> pend_ok w' ->
   Inv keyed w' (mkG (g_en g) (add h (g_reg g)) (rem h (g_st1 g)) (rem h (g_st2 g))).
 Proof.
-  intros [Ik Ie Ir Ic _] [Fe Fk _ _] M S Hh P.
+  intros [Ik Ie Ir Ic _] [Fe Fk _] M S Hh P.
   constructor; cbn [g_en g_reg g_st1 g_st2]; try congruence.
   - intros x. rewrite mem_add. intros Hx. apply orb_true_iff in Hx.
     destruct Hx as [Hx|Hx]; [apply Z.eqb_eq in Hx; now subst|auto].
@@ -92,16 +93,17 @@ Proof.
   - (* register *)
     destruct (svc_register w k ts) as [w1 r] eqn:E. injection H as <- <- <-.
     unfold svc_register in E. cbn [c28_check c28_next].
-    rewrite Ie. destruct (w_enabled w) eqn:En; cbn [negb] in *.
+    destruct (w_enabled w) eqn:En; cbn [negb] in *;
+      [assert (Eg : negb (g_en g) = false) by (rewrite Ie; try rewrite En; reflexivity)
+      |assert (Eg : negb (g_en g) = true) by (rewrite Ie; try rewrite En; reflexivity)]; rewrite Eg.
     2:{ injection E as <- <-. split; [left; apply rsl_eqb_refl|exact I]. }
-    rewrite <- Ik. destruct (w_keyed w) eqn:Ek; cbn [negb] in *.
+    destruct keyed; rewrite Ik in E; cbn [negb] in *.
     2:{ injection E as <- <-. split; [left; apply rsl_eqb_refl|exact I]. }
-    assert (Hk : hof w k = k) by (unfold hof; now rewrite Ek).
+    assert (Hk : hof w k = k) by (unfold hof; now rewrite Ik).
     rewrite Hk in E.
-    assert (Kh : khandle keyed k = k) by (rewrite <- Ik; reflexivity).
     destruct (has_inst k (w_insts w)) eqn:Eh.
     + injection E as <- <-. split; [left; cbn; now rewrite Z.eqb_refl|].
-      rewrite <- Ik, Ek in *. cbn [khandle].
+      cbn [khandle].
       apply Inv_registered with (w := w); auto.
       * constructor; reflexivity.
       * intros x Hx. wsimpl. now rewrite has_inst_upd.
@@ -111,7 +113,7 @@ Proof.
         apply Ip. exact Hp.
     + destruct (len_lt (zlen (w_insts w)) (q_max_instances (w_qos w))).
       * injection E as <- <-. split; [left; cbn; now rewrite Z.eqb_refl|].
-        rewrite <- Ik, Ek in *. cbn [khandle].
+        cbn [khandle].
         apply Inv_registered with (w := w); auto.
         -- constructor; reflexivity.
         -- intros x Hx. wsimpl. rewrite has_inst_app, Hx. reflexivity.
@@ -128,23 +130,25 @@ Proof.
   - (* unregister *)
     destruct (svc_unregister w k ts) as [w1 r] eqn:E. injection H as <- <- <-.
     unfold svc_unregister, svc_unreg_or_dispose in E. cbn [c28_check c28_next].
-    rewrite Ie. destruct (w_enabled w) eqn:En; cbn [negb] in *.
+    destruct (w_enabled w) eqn:En; cbn [negb] in *;
+      [assert (Eg : negb (g_en g) = false) by (rewrite Ie; try rewrite En; reflexivity)
+      |assert (Eg : negb (g_en g) = true) by (rewrite Ie; try rewrite En; reflexivity)]; rewrite Eg.
     2:{ injection E as <- <-. split; [left; apply rsl_eqb_refl|exact I]. }
-    rewrite <- Ik. destruct (w_keyed w) eqn:Ek; cbn [negb] in *.
+    destruct keyed; rewrite Ik in E; cbn [negb] in *.
     2:{ injection E as <- <-. split; [left; apply rsl_eqb_refl|exact I]. }
-    assert (Hk : hof w k = k) by (unfold hof; now rewrite Ek).
+    assert (Hk : hof w k = k) by (unfold hof; now rewrite Ik).
     rewrite Hk in E.
     destruct (has_inst k (w_insts w)) eqn:Eh.
     + injection E as <- <-. split.
       * destruct (mem k (g_reg g)) eqn:Em; [left; reflexivity|right].
-        apply cover_class with (k := k); [reflexivity| |]; rewrite <- Ik, Ek; cbn [khandle]; auto.
-      * rewrite <- Ik, Ek. cbn [khandle].
-        constructor; cbn [g_en g_reg g_st1 g_st2]; wsimpl; auto.
+        apply cover_class with (k := k); [reflexivity| |]; cbn [khandle]; auto.
+      * cbn [khandle].
+        constructor; cbn [g_en g_reg g_st1 g_st2]; wsimpl; auto; try congruence.
         -- intros x. rewrite mem_rem. intros Hx. apply andb_true_iff in Hx.
            rewrite has_inst_upd by reflexivity. apply Ir. tauto.
         -- intros x. rewrite has_inst_upd by reflexivity. intros Hx.
            rewrite mem_rem, mem_add, mem_rem.
-           destruct (x =? k) eqn:Ex; cbn [negb andb orb]; [apply orb_true_r|].
+           destruct (x =? k) eqn:Ex; cbn [negb andb orb]; [try reflexivity; try apply orb_true_r|].
            apply Ic in Hx. exact Hx.
         -- intros p Hp. wsimpl in Hp. unfold hof. wsimpl. rewrite has_inst_upd by reflexivity.
            apply Ip. exact Hp.
@@ -155,16 +159,18 @@ Proof.
   - (* dispose *)
     destruct (svc_dispose w k ts) as [w1 r] eqn:E. injection H as <- <- <-.
     unfold svc_dispose, svc_unreg_or_dispose in E. cbn [c28_check c28_next].
-    rewrite Ie. destruct (w_enabled w) eqn:En; cbn [negb] in *.
+    destruct (w_enabled w) eqn:En; cbn [negb] in *;
+      [assert (Eg : negb (g_en g) = false) by (rewrite Ie; try rewrite En; reflexivity)
+      |assert (Eg : negb (g_en g) = true) by (rewrite Ie; try rewrite En; reflexivity)]; rewrite Eg.
     2:{ injection E as <- <-. split; [left; apply rsl_eqb_refl|exact I]. }
-    rewrite <- Ik. destruct (w_keyed w) eqn:Ek; cbn [negb] in *.
+    destruct keyed; rewrite Ik in E; cbn [negb] in *.
     2:{ injection E as <- <-. split; [left; apply rsl_eqb_refl|exact I]. }
-    assert (Hk : hof w k = k) by (unfold hof; now rewrite Ek).
+    assert (Hk : hof w k = k) by (unfold hof; now rewrite Ik).
     rewrite Hk in E.
     destruct (has_inst k (w_insts w)) eqn:Eh.
     + injection E as <- <-. split.
       * destruct (mem k (g_reg g)) eqn:Em; [left; reflexivity|right].
-        apply cover_class with (k := k); [reflexivity| |]; rewrite <- Ik, Ek; cbn [khandle]; auto.
+        apply cover_class with (k := k); [reflexivity| |]; cbn [khandle]; auto.
       * apply Inv_silent with (w := w); auto.
         -- constructor; reflexivity.
         -- intros x. wsimpl. now rewrite has_inst_upd.
@@ -176,8 +182,11 @@ Proof.
       rewrite Hm. reflexivity.
   - (* lookup *)
     injection H as <- <- <-. split; [|exact I].
-    unfold svc_lookup. cbn [c28_check]. rewrite Ie.
-    destruct (w_enabled w); cbn [negb]; [|left; apply rsl_eqb_refl].
+    unfold svc_lookup. cbn [c28_check].
+    destruct (w_enabled w) eqn:En; cbn [negb];
+      [assert (Eg : negb (g_en g) = false) by (rewrite Ie; try rewrite En; reflexivity)
+      |assert (Eg : negb (g_en g) = true) by (rewrite Ie; try rewrite En; reflexivity)]; rewrite Eg;
+      [|left; apply rsl_eqb_refl].
     rewrite (khandle_hof keyed w k Ik). set (h := hof w k).
     destruct (has_inst h (w_insts w)) eqn:Eh, (mem h (g_reg g)) eqn:Em.
     + left. apply rsl_eqb_refl.
@@ -188,9 +197,11 @@ Proof.
   - (* write *)
     destruct (svc_write now w slot k ts) as [w1 r] eqn:E. injection H as <- <- <-.
     destruct (svc_write_spec _ _ _ _ _ _ _ E) as (F & M & S & Hok & Hne & Hen & Hp & Hsame).
-    cbn [c28_check]. rewrite Ie. rewrite (khandle_hof keyed w k Ik) in *.
+    cbn [c28_check].
     split.
-    + left. destruct (w_enabled w) eqn:En; cbn [negb].
+    + left. destruct (w_enabled w) eqn:En; cbn [negb];
+      [assert (Eg : negb (g_en g) = false) by (rewrite Ie; try rewrite En; reflexivity)
+      |assert (Eg : negb (g_en g) = true) by (rewrite Ie; try rewrite En; reflexivity)]; rewrite Eg.
       * destruct (Hen eq_refl) as [-> | [-> | [-> | ->]]]; reflexivity.
       * destruct (Hne eq_refl) as [-> _]. reflexivity.
     + cbn [c28_next]. rewrite (khandle_hof keyed w k Ik). set (h := hof w k) in *.
@@ -200,7 +211,7 @@ Proof.
       * apply Inv_registered with (w := w); auto.
       * destruct ((c =? E_OUT_OF_RESOURCES) && negb (mem h (g_reg g)) && negb (mem h (g_st1 g))) eqn:Ec.
         -- apply andb_true_iff in Ec. destruct Ec as [Ec E3]. apply andb_true_iff in Ec.
-           destruct Ec as [E1 E2]. destruct F as [Fe Fk _ _].
+           destruct Ec as [E1 E2]. destruct F as [Fe Fk _].
            constructor; cbn [g_en g_reg g_st1 g_st2]; try congruence; auto.
            intros x Hx. rewrite mem_add. destruct (S x Hx) as [Hb| ->].
            ++ apply Ic in Hb. apply orb_true_iff in Hb. destruct Hb as [Hb|Hb].
@@ -209,7 +220,7 @@ Proof.
            ++ rewrite Z.eqb_refl. cbn [orb]. apply orb_true_r.
         -- destruct (c =? E_OUT_OF_RESOURCES) eqn:E5.
            ++ (* refused, but the handle is already known to the ghost *)
-              cbn [andb] in Ec. destruct F as [Fe Fk _ _].
+              cbn [andb] in Ec. destruct F as [Fe Fk _].
               constructor; try congruence; auto.
               intros x Hx. destruct (S x Hx) as [Hb| ->]; [auto|].
               apply andb_false_iff in Ec. destruct Ec as [Ec|Ec]; apply negb_false_iff in Ec; rewrite Ec;
@@ -224,15 +235,477 @@ Proof.
     assert (P0 : pend_ok w0) by (intros p Hp; apply Ip; exact Hp).
     destruct (process_pending_spec _ _ _ _ E P0) as (F & S & Pd).
     assert (I0 : Inv keyed w0 g).
-    { apply Inv_silent with (w := w); auto; [constructor; reflexivity|apply hsame_refl]. }
+    { apply Inv_silent with (w := w); auto; [constructor; reflexivity|intros x; reflexivity]. }
     apply Inv_silent with (w := w0); auto.
     intros p Hp. destruct Pd as [Pd|Pd]; [|congruence].
     rewrite (hof_frame _ _ _ F), S. apply P0. congruence.
   - injection H as <- <- <-. split; [left; reflexivity|]. cbn [c28_next].
-    apply Inv_silent with (w := w); auto; [constructor; reflexivity|apply hsame_refl|].
-    intros p Hp; apply Ip; exact Hp.
+    apply Inv_silent with (w := w); auto;
+      try (constructor; reflexivity); try (intros x; reflexivity); try (intros p Hp; apply Ip; exact Hp).
   - injection H as <- <- <-. split; [left; reflexivity|]. cbn [c28_next].
-    apply Inv_silent with (w := w); auto; [constructor; reflexivity|apply hsame_refl|].
-    intros p Hp; apply Ip; exact Hp.
+    apply Inv_silent with (w := w); auto;
+      try (constructor; reflexivity); try (intros x; reflexivity); try (intros p Hp; apply Ip; exact Hp).
   - injection H as <- <- <-. split; [left; reflexivity|exact I].
+Qed.
+
+(* ------------------------------------------------------------ one event *)
+Lemma step_ok keyed w g e w' o :
+  Inv keyed w g -> step w e = (w', o) ->
+  (c28_check keyed g (e_op e) (o_imm o) = true \/ c28_class keyed g (e_op e) <> 0%N) /\
+  Inv keyed w' (c28_next keyed g (e_op e) (o_imm o)).
+Proof.
+  intros I H. unfold step in H.
+  destruct (catch_up (e_now e) w) as [w0 d0] eqn:E0.
+  destruct (apply_op (e_now e) w0 (e_op e)) as [[w1 imm] d1] eqn:E1.
+  destruct (tail (e_now e) w1) as [w2 d2] eqn:E2.
+  injection H as <- <-. cbn [o_imm].
+  destruct (catch_up_spec _ _ _ _ E0 (inv_pend _ _ _ I)) as (F0 & S0 & P0).
+  assert (I0 : Inv keyed w0 g) by (eapply Inv_silent; eauto).
+  destruct (apply_op_ok _ _ _ _ _ _ _ _ I0 E1) as [C I1].
+  split; [exact C|].
+  destruct (tail_spec _ _ _ _ E2 (inv_pend _ _ _ I1)) as (F2 & S2 & P2).
+  eapply Inv_silent; eauto.
+Qed.
+
+(* the model's own trace, in the shape of a correspondence case *)
+Definition model_trace (w : writer) (evs : list ev) : list (ev * out) := combine evs (snd (run w evs)).
+
+Lemma run_cons w e t :
+  run w (e :: t) = let '(w1, o) := step w e in let '(w2, os) := run w1 t in (w2, o :: os).
+Proof. reflexivity. Qed.
+
+Lemma walk_ok keyed evs : forall w g,
+  Inv keyed w g -> ~ In 0%N (c28_walk keyed g (model_trace w evs)).
+Proof.
+  induction evs as [|e t IH]; intros w g I; [intros []|].
+  unfold model_trace. rewrite run_cons.
+  destruct (step w e) as [w1 o] eqn:Es. destruct (run w1 t) as [w2 os] eqn:Er.
+  cbn [snd combine c28_walk].
+  destruct (step_ok _ _ _ _ _ _ I Es) as [C I1].
+  specialize (IH w1 _ I1). unfold model_trace in IH. rewrite Er in IH. cbn [snd] in IH.
+  destruct (c28_check keyed g (e_op e) (o_imm o)) eqn:Ec; [exact IH|].
+  intros [Hin|Hin]; [|exact (IH Hin)].
+  destruct C as [C|C]; [discriminate|]. apply C. exact Hin.
+Qed.
+
+(* Every reply of the model that breaks the contract belongs to a recorded class. *)
+Theorem contract_outside_known_classes keyed enabled q evs :
+  ~ In 0%N (c28_walk keyed (mkG enabled [] [] []) (model_trace (init keyed enabled q) evs)).
+Proof. apply walk_ok. apply Inv_init. Qed.
+
+(* in terms of the correspondence functions: a model-generated case is accepted by the
+   oracle or classified as known *)
+Definition model_case (keyed enabled : bool) (q : qos) (evs : list ev) : W_case :=
+  mkWC keyed enabled q (model_trace (init keyed enabled q) evs) None None.
+
+Theorem oracle_or_known keyed enabled q evs :
+  C28_oracle_ok (model_case keyed enabled q evs) = true \/
+  C28_known (model_case keyed enabled q evs) <> 0%N.
+Proof.
+  pose proof (contract_outside_known_classes keyed enabled q evs) as H.
+  unfold C28_oracle_ok, C28_known, model_case, ghost0, hist_ok. cbn [wc_keyed wc_enabled0 wc_evs wc_hist].
+  destruct (c28_walk keyed (mkG enabled [] [] []) (model_trace (init keyed enabled q) evs)) as [|c l] eqn:E;
+    [now left|right].
+  destruct (existsb (N.eqb 0) (c :: l)) eqn:Ex.
+  - apply existsb_exists in Ex. destruct Ex as (x & Hx & Hx0). apply N.eqb_eq in Hx0. subst x. contradiction.
+  - cbn [hd]. intros ->. apply H. now left.
+Qed.
+
+(* ------------------------------------------------ the state after a trace *)
+Lemma run_inv keyed evs : forall w g,
+  Inv keyed w g -> Inv keyed (fst (run w evs)) (c28_ghost keyed g (model_trace w evs)).
+Proof.
+  induction evs as [|e t IH]; intros w g I; [exact I|].
+  unfold model_trace. rewrite run_cons.
+  destruct (step w e) as [w1 o] eqn:Es. destruct (run w1 t) as [w2 os] eqn:Er.
+  cbn [fst snd combine c28_ghost].
+  destruct (step_ok _ _ _ _ _ _ I Es) as [_ I1].
+  specialize (IH w1 _ I1). unfold model_trace in IH. rewrite Er in IH. exact IH.
+Qed.
+
+Lemma rsl_eqb_eq a b : rsl_eqb a b = true -> a = b.
+Proof.
+  destruct a as [|x|[x|]|], b as [|y|[y|]|]; cbn; try discriminate; auto;
+    intros H; apply Z.eqb_eq in H; congruence.
+Qed.
+
+Section AfterTrace.
+  Variables (keyed enabled : bool) (q : qos) (evs : list ev).
+  Let w := fst (run (init keyed enabled q) evs).
+  Let g := c28_ghost keyed (mkG enabled [] [] []) (model_trace (init keyed enabled q) evs).
+
+  Lemma after_inv : Inv keyed w g.
+  Proof. apply run_inv. apply Inv_init. Qed.
+
+  (* lookup_instance returns the handle exactly for registered instances *)
+  Lemma lookup_iff_registered k :
+    g_en g = true ->
+    mem (khandle keyed k) (g_st1 g) = false -> mem (khandle keyed k) (g_st2 g) = false ->
+    svc_lookup w k = RHandle (if mem (khandle keyed k) (g_reg g) then Some (khandle keyed k) else None).
+  Proof.
+    intros En H1 H2.
+    destruct (apply_op_ok keyed 0 w g (OLookup k) w (Some (svc_lookup w k)) [] after_inv eq_refl) as [[C|C] _].
+    - cbn [c28_check] in C. rewrite En in C. cbn [negb] in C. now apply rsl_eqb_eq.
+    - exfalso. apply C. unfold c28_class. cbn [op_key]. now rewrite H1, H2.
+  Qed.
+
+  (* dispose / unregister_instance of an instance that is not registered: BadParameter, no effect *)
+  Lemma unknown_instance_bad_parameter k ts :
+    g_en g = true -> keyed = true ->
+    mem k (g_reg g) = false -> mem k (g_st1 g) = false -> mem k (g_st2 g) = false ->
+    svc_unregister w k ts = (w, RErr E_BAD_PARAMETER) /\ svc_dispose w k ts = (w, RErr E_BAD_PARAMETER).
+  Proof.
+    intros En Hk H0 H1 H2. pose proof after_inv as I.
+    assert (Hn : has_inst k (w_insts w) = false).
+    { destruct (has_inst k (w_insts w)) eqn:E; [|reflexivity].
+      apply (inv_cover _ _ _ I) in E. rewrite H0, H1, H2 in E. discriminate. }
+    unfold svc_unregister, svc_dispose, svc_unreg_or_dispose.
+    rewrite <- (inv_en _ _ _ I), En. cbn [negb].
+    rewrite (inv_keyed _ _ _ I), Hk. cbn [negb].
+    unfold hof. rewrite (inv_keyed _ _ _ I), Hk, Hn. split; reflexivity.
+  Qed.
+End AfterTrace.
+
+(* ------------------------------------------------ statements about any state *)
+(* register_instance is idempotent: a second call returns the same handle, which is the handle of
+   the key, and changes nothing but the instance's last_write_time *)
+Definition forget_lwt (w : writer) : writer :=
+  set_insts w (map (fun i => mkInst (i_h i) None (i_samples i)) (w_insts w)).
+
+Lemma map_upd_lwt h f l :
+  (forall i, i_h (f i) = i_h i /\ i_samples (f i) = i_samples i) ->
+  map (fun i => mkInst (i_h i) None (i_samples i)) (upd_inst h f l) =
+  map (fun i => mkInst (i_h i) None (i_samples i)) l.
+Proof.
+  intros Hf. induction l as [|i t IH]; cbn [upd_inst map]; [reflexivity|].
+  destruct (i_h i =? h); cbn [map]; [|now rewrite IH].
+  destruct (Hf i) as [-> ->]. reflexivity.
+Qed.
+
+Lemma register_idempotent w k ts1 ts2 w1 h :
+  svc_register w k ts1 = (w1, RHandle (Some h)) ->
+  h = k /\
+  exists w2, svc_register w1 k ts2 = (w2, RHandle (Some h)) /\ forget_lwt w2 = forget_lwt w1.
+Proof.
+  unfold svc_register.
+  destruct (w_enabled w) eqn:En; cbn [negb]; [|discriminate].
+  destruct (w_keyed w) eqn:Ek; cbn [negb]; [|discriminate].
+  assert (Hk : hof w k = k) by (unfold hof; now rewrite Ek). rewrite Hk.
+  assert (SECOND : forall l, has_inst k l = true ->
+     let w1 := set_insts w l in
+     exists w2, svc_register w1 k ts2 = (w2, RHandle (Some k)) /\ forget_lwt w2 = forget_lwt w1).
+  { intros l Hl w1'. unfold svc_register. subst w1'. wsimpl. rewrite En, Ek. cbn [negb].
+    unfold hof. wsimpl. rewrite Ek, Hl. eexists. split; [reflexivity|].
+    unfold forget_lwt. wsimpl. rewrite map_upd_lwt; [reflexivity|]. intros i. split; reflexivity. }
+  destruct (has_inst k (w_insts w)) eqn:Eh.
+  - intros [= <- <-]. split; [reflexivity|]. apply SECOND. now rewrite has_inst_upd.
+  - destruct (len_lt (zlen (w_insts w)) (q_max_instances (w_qos w))); [|discriminate].
+    intros [= <- <-]. split; [reflexivity|]. apply SECOND.
+    rewrite has_inst_app. cbn [i_h]. rewrite Z.eqb_refl. apply orb_true_r.
+Qed.
+
+(* instance operations on a keyless type: IllegalOperation, no effect *)
+Lemma keyless_illegal_operation w k ts :
+  w_enabled w = true -> w_keyed w = false ->
+  svc_register w k ts = (w, RErr E_ILLEGAL_OPERATION) /\
+  svc_unregister w k ts = (w, RErr E_ILLEGAL_OPERATION) /\
+  svc_dispose w k ts = (w, RErr E_ILLEGAL_OPERATION).
+Proof.
+  intros En Ek. unfold svc_register, svc_unregister, svc_dispose, svc_unreg_or_dispose.
+  rewrite En, Ek. cbn [negb]. repeat split.
+Qed.
+
+(* every operation on a writer that is not enabled: NotEnabled, no effect *)
+Lemma not_enabled_everywhere w now slot k ts :
+  w_enabled w = false ->
+  svc_register w k ts = (w, RErr E_NOT_ENABLED) /\
+  svc_unregister w k ts = (w, RErr E_NOT_ENABLED) /\
+  svc_dispose w k ts = (w, RErr E_NOT_ENABLED) /\
+  svc_lookup w k = RErr E_NOT_ENABLED /\
+  svc_write now w slot k ts = (w, RErr E_NOT_ENABLED).
+Proof.
+  intros En. unfold svc_register, svc_unregister, svc_dispose, svc_unreg_or_dispose, svc_lookup, svc_write.
+  rewrite En. cbn [negb]. repeat split.
+Qed.
+
+(* ---- which states are enabled / keyed: the flags along a run ---- *)
+Lemma step_flags w e w' o :
+  step w e = (w', o) -> pend_ok w ->
+  w_keyed w' = w_keyed w /\ w_qos w' = w_qos w /\ pend_ok w' /\ hmono w w' /\
+  w_enabled w' = (w_enabled w || match e_op e with OEnable => true | _ => false end).
+Proof.
+  intros H P. unfold step in H.
+  destruct (catch_up (e_now e) w) as [w0 d0] eqn:E0.
+  destruct (apply_op (e_now e) w0 (e_op e)) as [[w1 imm] d1] eqn:E1.
+  destruct (tail (e_now e) w1) as [w2 d2] eqn:E2. injection H as <- <-.
+  destruct (catch_up_spec _ _ _ _ E0 P) as ([Fe0 Fk0 Fq0] & S0 & P0).
+  assert (A : w_keyed w1 = w_keyed w0 /\ w_qos w1 = w_qos w0 /\ pend_ok w1 /\ hmono w0 w1 /\
+              w_enabled w1 = (w_enabled w0 || match e_op e with OEnable => true | _ => false end)).
+  { destruct (e_op e) as [|k ts|k ts|k ts|k|slot k ts|r base count|r rel|r|]; cbn [apply_op] in E1.
+    - injection E1 as <- <- <-. wsimpl. rewrite orb_true_r. repeat split; auto; try (intros x; auto; fail).
+    - destruct (svc_register w0 k ts) as [wx rx] eqn:E. injection E1 as <- <- <-.
+      rewrite orb_false_r. unfold svc_register in E.
+      destruct (w_enabled w0) eqn:En0; cbn [negb] in E; [|injection E as <- <-; repeat split; auto; try (intros x; auto; fail)].
+      destruct (w_keyed w0) eqn:Ek; cbn [negb] in E; [|injection E as <- <-; repeat split; auto; try (intros x; auto; fail)].
+      destruct (has_inst (hof w0 k) (w_insts w0)).
+      + injection E as <- <-. wsimpl. repeat split; auto.
+        * intros p Hp. wsimpl in Hp. unfold hof. wsimpl. rewrite has_inst_upd by reflexivity. now apply P0.
+        * intros x Hx. wsimpl. now rewrite has_inst_upd.
+      + destruct (len_lt _ _); injection E as <- <-; wsimpl; repeat split; auto; try (intros x; auto; fail).
+        * intros p Hp. wsimpl in Hp. unfold hof. wsimpl. rewrite has_inst_app. apply orb_true_iff. left. now apply P0.
+        * intros x Hx. wsimpl. rewrite has_inst_app, Hx. reflexivity.
+    - destruct (svc_unregister w0 k ts) as [wx rx] eqn:E. injection E1 as <- <- <-.
+      rewrite orb_false_r. unfold svc_unregister, svc_unreg_or_dispose in E.
+      destruct (w_enabled w0) eqn:En0; cbn [negb] in E; [|injection E as <- <-; repeat split; auto; try (intros x; auto; fail)].
+      destruct (w_keyed w0) eqn:Ek; cbn [negb] in E; [|injection E as <- <-; repeat split; auto; try (intros x; auto; fail)].
+      destruct (has_inst (hof w0 k) (w_insts w0)); injection E as <- <-; wsimpl; repeat split; auto; try (intros x; auto; fail).
+      * intros p Hp. wsimpl in Hp. unfold hof. wsimpl. rewrite has_inst_upd by reflexivity. now apply P0.
+      * intros x Hx. wsimpl. now rewrite has_inst_upd.
+    - destruct (svc_dispose w0 k ts) as [wx rx] eqn:E. injection E1 as <- <- <-.
+      rewrite orb_false_r. unfold svc_dispose, svc_unreg_or_dispose in E.
+      destruct (w_enabled w0) eqn:En0; cbn [negb] in E; [|injection E as <- <-; repeat split; auto; try (intros x; auto; fail)].
+      destruct (w_keyed w0) eqn:Ek; cbn [negb] in E; [|injection E as <- <-; repeat split; auto; try (intros x; auto; fail)].
+      destruct (has_inst (hof w0 k) (w_insts w0)); injection E as <- <-; wsimpl; repeat split; auto; try (intros x; auto; fail).
+      * intros p Hp. wsimpl in Hp. unfold hof. wsimpl. rewrite has_inst_upd by reflexivity. now apply P0.
+      * intros x Hx. wsimpl. now rewrite has_inst_upd.
+    - injection E1 as <- <- <-. rewrite orb_false_r. repeat split; auto; try (intros x; auto; fail).
+    - destruct (svc_write (e_now e) w0 slot k ts) as [wx rx] eqn:E. injection E1 as <- <- <-.
+      destruct (svc_write_spec _ _ _ _ _ _ _ E) as ([Fe Fk Fq] & M & _ & _ & _ & _ & Hp & _).
+      rewrite orb_false_r. repeat split; auto.
+    - destruct (process_pending (e_now e) _) as [wx dx] eqn:E. injection E1 as <- <- <-.
+      set (wa := set_proxies w0 _) in *.
+      assert (Pa : pend_ok wa) by (intros p Hp; now apply P0).
+      destruct (process_pending_spec _ _ _ _ E Pa) as ([Fe Fk Fq] & S & Pd).
+      rewrite orb_false_r. repeat split; auto.
+      + intros p Hp. destruct Pd as [Pd|Pd]; [|congruence].
+        unfold hof. rewrite Fk. rewrite S. apply Pa. congruence.
+      + intros x Hx. rewrite S. exact Hx.
+    - injection E1 as <- <- <-. rewrite orb_false_r. wsimpl. repeat split; auto;
+        try (intros x; auto; fail); try (intros p Hp; now apply P0).
+    - injection E1 as <- <- <-. rewrite orb_false_r. wsimpl. repeat split; auto;
+        try (intros x; auto; fail); try (intros p Hp; now apply P0).
+    - injection E1 as <- <- <-. rewrite orb_false_r. repeat split; auto; try (intros x; auto; fail). }
+  destruct A as (Ak & Aq & Ap & Am & Ae).
+  destruct (tail_spec _ _ _ _ E2 Ap) as ([Fe2 Fk2 Fq2] & S2 & P2).
+  repeat split; try congruence; try exact P2.
+  intros x Hx. rewrite S2. apply Am. now rewrite S0.
+Qed.
+
+Lemma run_flags evs : forall w, pend_ok w ->
+  let w' := fst (run w evs) in
+  w_keyed w' = w_keyed w /\ w_qos w' = w_qos w /\ pend_ok w' /\ hmono w w' /\
+  w_enabled w' = (w_enabled w || existsb (fun e => match e_op e with OEnable => true | _ => false end) evs).
+Proof.
+  induction evs as [|e t IH]; intros w P.
+  - cbn. rewrite orb_false_r. repeat split; auto; try (intros x; auto; fail).
+  - rewrite run_cons. destruct (step w e) as [w1 o] eqn:Es. destruct (run w1 t) as [w2 os] eqn:Er.
+    cbn [fst existsb].
+    destruct (step_flags _ _ _ _ Es P) as (K1 & Q1 & P1 & M1 & E1).
+    specialize (IH w1 P1). rewrite Er in IH. cbn [fst] in IH. destruct IH as (K2 & Q2 & P2 & M2 & E2).
+    refine (conj _ (conj _ (conj P2 (conj _ _)))); try congruence.
+    + intros x Hx. apply M2, M1, Hx.
+    + rewrite E2, E1. now rewrite orb_assoc.
+Qed.
+
+Lemma pend_ok_init keyed enabled q : pend_ok (init keyed enabled q).
+Proof. intros p; discriminate. Qed.
+
+(* the topic kind never changes; a writer is enabled iff it was created enabled or enable was called *)
+Lemma flags_after keyed enabled q evs :
+  let w := fst (run (init keyed enabled q) evs) in
+  w_keyed w = keyed /\
+  w_enabled w = (enabled || existsb (fun e => match e_op e with OEnable => true | _ => false end) evs).
+Proof.
+  destruct (run_flags evs (init keyed enabled q) (pend_ok_init _ _ _)) as (K & _ & _ & _ & E).
+  split; assumption.
+Qed.
+
+(* once an instance has a record, register_instance returns its handle after any further events *)
+Lemma register_stays w k evs ts :
+  pend_ok w -> w_enabled w = true -> w_keyed w = true -> has_inst k (w_insts w) = true ->
+  snd (svc_register (fst (run w evs)) k ts) = RHandle (Some k).
+Proof.
+  intros P En Ek Hk. destruct (run_flags evs w P) as (K & _ & _ & M & E).
+  unfold svc_register. rewrite E, En, K, Ek. cbn [orb negb].
+  unfold hof. rewrite K, Ek. rewrite (M k Hk). reflexivity.
+Qed.
+
+(* ------------------------------------------ writer half of C19, service level *)
+(* the QoS a writer can be created with: is_consistent, limits that are real i32 counts *)
+Definition qos_wf (q : qos) : Prop :=
+  qos_consistent q = true /\
+  (forall m, q_mspi q = Some m -> 0 <= m <= i32_max) /\
+  (forall ms, q_max_samples q = Some ms -> 0 <= ms).
+
+Lemma pop_front_total w h s sn rest :
+  find_inst h (w_insts w) = Some s -> i_samples s = sn :: rest ->
+  total_samples (w_insts (pop_front w h)) = total_samples (w_insts w) - 1.
+Proof.
+  intros Hf Hs. unfold pop_front. rewrite Hf, Hs. wsimpl.
+  rewrite (upd_inst_total _ _ _ _ Hf). cbn [i_samples]. rewrite Hs. cbn [tl]. rewrite zlen_cons. lia.
+Qed.
+
+(* after the KEEP_LAST replacement made room, the write cannot be refused *)
+Lemma no_refusal_after_pop w h d s sn rest ts now slot :
+  Lim w -> qos_wf (w_qos w) -> q_hist (w_qos w) = KeepLast d ->
+  find_inst h (w_insts w) = Some s -> i_samples s = sn :: rest -> zlen (i_samples s) = d ->
+  snd (ent_write (pop_front w h) h ts now slot) = 0.
+Proof.
+  intros L (Hc & Hm & Hms) Hq Hf Hs Hd.
+  rewrite ent_write_refused_iff.
+  destruct (pop_front_spec w h) as ([_ _ Fq] & _ & _ & Sh).
+  assert (Hh : has_inst h (w_insts (pop_front w h)) = true).
+  { rewrite Sh. apply has_inst_find. eauto. }
+  unfold would_exceed. rewrite Fq, Hh, Hq. cbn [negb andb orb].
+  assert (M : match q_mspi (w_qos w) with
+              | Some m => if wrap_i32 d <=? m then false
+                          else usize_of_i32 m <=? zlen (samples_of h (w_insts (pop_front w h)))
+              | None => false end = false).
+  { destruct (q_mspi (w_qos w)) as [m|] eqn:Em; [|reflexivity].
+    destruct (Hm m eq_refl) as [Hm0 Hm1].
+    unfold qos_consistent in Hc. rewrite Hq, Em in Hc. apply andb_true_iff in Hc. destruct Hc as [_ Hc].
+    apply negb_true_iff, Z.ltb_ge in Hc. rewrite usize_nonneg in Hc by exact Hm0.
+    assert (Hd0 : 0 <= d) by (rewrite <- Hd; apply zlen_nonneg).
+    assert (W : wrap_i32 d = d).
+    { unfold wrap_i32, two32. unfold i32_max in Hm1. rewrite Z.mod_small by lia. lia. }
+    rewrite W. destruct (d <=? m) eqn:E; [reflexivity|apply Z.leb_gt in E; lia]. }
+  rewrite M. cbn [orb].
+  destruct (q_max_samples (w_qos w)) as [ms|] eqn:Ems; [|reflexivity].
+  specialize (Hms ms eq_refl).
+  rewrite (pop_front_total w h s sn rest Hf Hs).
+  destruct L as [_ Lt _]. unfold opt_le, nonneg_lim in Lt. rewrite Ems in Lt.
+  destruct (0 <=? ms) eqn:E0; [|apply Z.leb_gt in E0; lia].
+  rewrite usize_nonneg by exact Hms.
+  destruct (ms <=? total_samples (w_insts w) - 1) eqn:E; [apply Z.leb_le in E; lia|reflexivity].
+Qed.
+
+Lemma svc_write_refused_stores_nothing now w slot k ts w' :
+  Lim w -> qos_wf (w_qos w) ->
+  svc_write now w slot k ts = (w', RErr E_OUT_OF_RESOURCES) ->
+  w_changes w' = w_changes w /\ w_last_sn w' = w_last_sn w /\
+  (forall x, samples_of x (w_insts w') = samples_of x (w_insts w)) /\
+  w_pending w' = w_pending w /\
+  (has_inst (hof w k) (w_insts w) = true -> w' = w).
+Proof.
+  intros L WF H. unfold svc_write in H.
+  destruct (w_enabled w); cbn [negb] in H; [|discriminate].
+  set (h := hof w k) in *.
+  assert (DIRECT : (let '(w'', c) := ent_write w h ts now slot in (w'', rsl_of_code c)) = (w', RErr E_OUT_OF_RESOURCES) ->
+     w_changes w' = w_changes w /\ w_last_sn w' = w_last_sn w /\
+     (forall x, samples_of x (w_insts w') = samples_of x (w_insts w)) /\
+     w_pending w' = w_pending w /\ (has_inst h (w_insts w) = true -> w' = w)).
+  { destruct (ent_write w h ts now slot) as [w'' c] eqn:E. intros [= <- Hc].
+    assert (c <> 0) by (intros ->; discriminate).
+    destruct (ent_write_refused_stores_nothing _ _ _ _ _ _ _ E H0) as (A & B & C & _ & _ & P & S).
+    repeat split; auto. }
+  destruct (q_hist (w_qos w)) as [|d] eqn:Hq; [exact (DIRECT H)|].
+  destruct (smallest_full d h (w_insts w)) as [sn|] eqn:Es; [|exact (DIRECT H)].
+  destruct (smallest_full_inv _ _ _ _ Es) as (s & rest & Hf & Hs & Hd).
+  destruct (q_reliable (w_qos w) && negb (acked w sn)).
+  - destruct (w_pending w); discriminate.
+  - exfalso. pose proof (no_refusal_after_pop w h d s sn rest ts now slot L WF Hq Hf Hs Hd) as N.
+    destruct (ent_write (pop_front w h) h ts now slot) as [w'' c]. cbn [snd] in N. subst c.
+    discriminate.
+Qed.
+
+(* ------------------------------------------------------------ witnesses *)
+Definition q_plain : qos := mkQos KeepAll true None None None None (Some 100000000) true.
+Definition ev0 (o : op) : ev := mkEv 1000000000 o.
+
+(* D31: after unregister_instance the instance is still found, and can be unregistered again *)
+Lemma lookup_after_unregister_refuted :
+  let evs := [ev0 (ORegister 1 0); ev0 (OUnregister 1 0)] in
+  let w := fst (run (init true true q_plain) evs) in
+  let g := c28_ghost true (mkG true [] [] []) (model_trace (init true true q_plain) evs) in
+  mem 1 (g_reg g) = false /\ svc_lookup w 1 = RHandle (Some 1) /\
+  snd (svc_unregister w 1 0) = ROk /\ snd (svc_dispose w 1 0) = ROk.
+Proof. vm_compute. repeat split. Qed.
+
+(* a write refused with OutOfResources registers its instance *)
+Definition q_tight : qos := mkQos KeepAll true (Some 1) (Some 2) (Some 1) None (Some 100000000) true.
+Lemma refused_write_registers_instance :
+  let w := fst (run (init true true q_tight) [ev0 (OWrite 0 1 0)]) in
+  let '(w', r) := svc_write 1000000000 w 1 2 0 in
+  svc_lookup w 2 = RHandle None /\ r = RErr E_OUT_OF_RESOURCES /\
+  svc_lookup w' 2 = RHandle (Some 2) /\ w_changes w' = w_changes w.
+Proof. vm_compute. repeat split. Qed.
+
+(* ------------------------------------- the statements in their published form *)
+Lemma register_forever keyed enabled q evs0 k ts0 evs ts :
+  let w0 := fst (run (init keyed enabled q) evs0) in
+  forall w1, svc_register w0 k ts0 = (w1, RHandle (Some k)) ->
+  snd (svc_register (fst (run w1 evs)) k ts) = RHandle (Some k).
+Proof.
+  intros w0 w1 H.
+  destruct (run_flags evs0 (init keyed enabled q) (pend_ok_init _ _ _)) as (K0 & _ & P0 & _ & _).
+  fold w0 in K0, P0.
+  assert (A : pend_ok w1 /\ w_enabled w1 = true /\ w_keyed w1 = true /\ has_inst k (w_insts w1) = true).
+  { unfold svc_register in H.
+    destruct (w_enabled w0) eqn:En; cbn [negb] in H; [|discriminate].
+    destruct (w_keyed w0) eqn:Ek; cbn [negb] in H; [|discriminate].
+    assert (Hk : hof w0 k = k) by (unfold hof; now rewrite Ek). rewrite Hk in H.
+    destruct (has_inst k (w_insts w0)) eqn:Eh.
+    - injection H as <-. wsimpl. repeat split; auto.
+      + intros p Hp. wsimpl in Hp. unfold hof. wsimpl. rewrite has_inst_upd by reflexivity. now apply P0.
+      + now rewrite has_inst_upd.
+    - destruct (len_lt _ _); [|discriminate]. injection H as <-. wsimpl. repeat split; auto.
+      + intros p Hp. wsimpl in Hp. unfold hof. wsimpl. rewrite has_inst_app. apply orb_true_iff. left. now apply P0.
+      + rewrite has_inst_app. cbn [i_h]. rewrite Z.eqb_refl. apply orb_true_r. }
+  destruct A as (P1 & E1 & K1 & H1). now apply register_stays.
+Qed.
+
+Lemma keyless_after enabled q evs k ts :
+  let w := fst (run (init false enabled q) evs) in
+  w_enabled w = true ->
+  svc_register w k ts = (w, RErr E_ILLEGAL_OPERATION) /\
+  svc_unregister w k ts = (w, RErr E_ILLEGAL_OPERATION) /\
+  svc_dispose w k ts = (w, RErr E_ILLEGAL_OPERATION).
+Proof.
+  intros w En. apply keyless_illegal_operation; [exact En|].
+  apply (proj1 (flags_after false enabled q evs)).
+Qed.
+
+Lemma not_enabled_before_enable keyed q evs now slot k ts :
+  (forall e, In e evs -> e_op e <> OEnable) ->
+  let w := fst (run (init keyed false q) evs) in
+  svc_register w k ts = (w, RErr E_NOT_ENABLED) /\
+  svc_unregister w k ts = (w, RErr E_NOT_ENABLED) /\
+  svc_dispose w k ts = (w, RErr E_NOT_ENABLED) /\
+  svc_lookup w k = RErr E_NOT_ENABLED /\
+  svc_write now w slot k ts = (w, RErr E_NOT_ENABLED).
+Proof.
+  intros Hn w. apply not_enabled_everywhere.
+  destruct (flags_after keyed false q evs) as [_ E]. fold w in E. rewrite E. cbn [orb].
+  destruct (existsb _ evs) eqn:Ex; [|reflexivity].
+  apply existsb_exists in Ex. destruct Ex as (e & He & Hop).
+  specialize (Hn e He). destruct (e_op e); congruence.
+Qed.
+
+Lemma qos_after keyed enabled q evs : w_qos (fst (run (init keyed enabled q) evs)) = q.
+Proof. destruct (run_flags evs (init keyed enabled q) (pend_ok_init _ _ _)) as (_ & Q & _). exact Q. Qed.
+
+Lemma svc_write_refused_after_trace keyed enabled q evs now slot k ts w' :
+  qos_consistent q = true ->
+  (forall m, q_mspi q = Some m -> 0 <= m <= i32_max) ->
+  (forall ms, q_max_samples q = Some ms -> 0 <= ms) ->
+  let w := fst (run (init keyed enabled q) evs) in
+  svc_write now w slot k ts = (w', RErr E_OUT_OF_RESOURCES) ->
+  w_changes w' = w_changes w /\ w_last_sn w' = w_last_sn w /\
+  (forall x, samples_of x (w_insts w') = samples_of x (w_insts w)) /\
+  w_pending w' = w_pending w /\
+  (has_inst (hof w k) (w_insts w) = true -> w' = w).
+Proof.
+  intros Hc Hm Hms w H. apply (svc_write_refused_stores_nothing now w slot k ts w'); auto.
+  - apply limits_invariant.
+  - unfold qos_wf, w. rewrite qos_after. auto.
+Qed.
+
+Lemma limits_after_trace keyed enabled q evs :
+  let w := fst (run (init keyed enabled q) evs) in
+  (forall i, In i (w_insts w) -> opt_le (zlen (i_samples i)) (inst_bound q)) /\
+  opt_le (total_samples (w_insts w)) (nonneg_lim (q_max_samples q)) /\
+  opt_le (zlen (w_insts w)) (nonneg_lim (q_max_instances q)).
+Proof.
+  intros w. destruct (limits_invariant keyed enabled q evs) as [A B C]. fold w in A, B, C.
+  unfold w in *. rewrite qos_after in *. auto.
 Qed.
